@@ -312,7 +312,7 @@ func IntersectionBy[T comparable](fn func(T) T, params ...[]T) []T {
 
 	for i := 0; i < len(params[0]); i++ {
 		item := params[0][i]
-		if Contains(result, fn(item)) {
+		if Contains(result, item) {
 			continue
 		}
 		var j int
